@@ -42,11 +42,15 @@ pub struct FutSpec {
     pub poll: Vec<PStep>,
     pub atomic_waker: bool,
     pub wakers: Vec<Vec<WStep>>,
+    /// before anything else, another task (an earlier `block_on`) registers its waker and
+    /// completes, leaving a stale waker behind
+    #[serde(default)]
+    pub prior: bool,
 }
 
 impl FutSpec {
     pub fn text(&self) -> String {
-        format!("poll={:?} via={} wakers={:?}", self.poll, if self.atomic_waker { "AtomicWaker" } else { "slot" }, self.wakers)
+        format!("poll={:?} via={} wakers={:?}{}", self.poll, if self.atomic_waker { "AtomicWaker" } else { "slot" }, self.wakers, if self.prior { " prior-registration" } else { "" })
     }
 }
 
@@ -64,12 +68,13 @@ enum MainSt {
 #[derive(Clone, Debug, PartialEq, Eq, Hash)]
 struct FS {
     flag: bool,
-    slot: bool,
+    /// 0 = empty, 1 = waker of the earlier (finished) task, 2 = waker of the blocked task
+    slot: u8,
     notified: bool,
     credit: bool,
     main: MainSt,
     w: Vec<usize>,
-    held: Vec<bool>,
+    held: Vec<u8>,
 }
 
 pub struct FutRef {
@@ -81,7 +86,7 @@ pub struct FutRef {
 }
 
 pub fn reference(spec: &FutSpec) -> FutRef {
-    let init = FS { flag: false, slot: false, notified: false, credit: true, main: MainSt::Polling(0), w: vec![0; spec.wakers.len()], held: vec![false; spec.wakers.len()] };
+    let init = FS { flag: false, slot: if spec.prior { 1 } else { 0 }, notified: false, credit: true, main: MainSt::Polling(0), w: vec![0; spec.wakers.len()], held: vec![0; spec.wakers.len()] };
     let mut seen: HashSet<FS> = HashSet::new();
     let mut stack = vec![(init.clone(), vec![])];
     seen.insert(init);
@@ -94,7 +99,7 @@ pub fn reference(spec: &FutSpec) -> FutRef {
                 let mut n = s.clone();
                 match spec.poll[*i] {
                     PStep::Register => {
-                        n.slot = true;
+                        n.slot = 2;
                         n.main = if i + 1 == spec.poll.len() { MainSt::Waiting } else { MainSt::Polling(i + 1) };
                     }
                     PStep::Check => {
@@ -133,31 +138,31 @@ pub fn reference(spec: &FutSpec) -> FutRef {
             match st {
                 WStep::SetFlag => n.flag = true,
                 WStep::Wake => {
-                    if n.slot {
-                        n.slot = false;
+                    if n.slot == 2 {
                         n.notified = true;
                     }
+                    n.slot = 0;
                 }
                 WStep::WakeByRef => {
-                    if n.slot {
+                    if n.slot == 2 {
                         n.notified = true;
-                        if spec.atomic_waker {
-                            n.slot = false;
-                        }
+                    }
+                    if spec.atomic_waker {
+                        n.slot = 0;
                     }
                 }
                 WStep::CloneWaker => {
-                    if n.slot {
-                        n.held[t] = true;
+                    if n.slot != 0 {
+                        n.held[t] = n.slot;
                     }
                 }
                 WStep::WakeHeld => {
-                    if n.held[t] {
-                        n.held[t] = false;
+                    if n.held[t] == 2 {
                         n.notified = true;
                     }
+                    n.held[t] = 0;
                 }
-                WStep::DropHeld => n.held[t] = false,
+                WStep::DropHeld => n.held[t] = 0,
             }
             succ.push((n, false, format!("T{} {:?}", t + 1, st)));
         }
@@ -222,6 +227,21 @@ impl Future for Fut {
             }
         }
         Poll::Pending
+    }
+}
+
+struct RegisterOnce(Arc<Shared>);
+
+impl Future for RegisterOnce {
+    type Output = u32;
+    fn poll(self: Pin<&mut Self>, cx: &mut Context<'_>) -> Poll<u32> {
+        let sh = &self.0;
+        if sh.spec.atomic_waker {
+            sh.aw.register_by_ref(cx.waker());
+        } else {
+            *sh.slot.lock().unwrap() = Some(cx.waker().clone());
+        }
+        Poll::Ready(0)
     }
 }
 
@@ -308,6 +328,11 @@ pub fn run_subject(spec: &FutSpec, iter_cap: usize) -> FutObs {
                 spec: spec2.clone(),
                 polls: std::sync::atomic::AtomicUsize::new(0),
             });
+            if spec2.prior {
+                // an earlier task registers and completes at once
+                let out0 = loom::future::block_on(RegisterOnce(sh.clone()));
+                assert_eq!(out0, 0);
+            }
             let mut hs = vec![];
             for script in &spec2.wakers {
                 let (s2, sc) = (sh.clone(), script.clone());
@@ -433,7 +458,9 @@ pub fn specs(tier: &str) -> Vec<FutSpec> {
             // clone steps (which the reference treats as atomic) are only used with the plain slot
             let usable = |s: &Vec<WStep>| !aw || !s.contains(&CloneWaker);
             for s1 in scripts.iter().filter(|s| usable(s)) {
-                out.push(FutSpec { poll: p.clone(), atomic_waker: aw, wakers: vec![s1.clone()] });
+                for prior in [false, true] {
+                    out.push(FutSpec { poll: p.clone(), atomic_waker: aw, wakers: vec![s1.clone()], prior });
+                }
             }
             // two waker threads: short scripts
             for (i, s1) in scripts.iter().enumerate() {
@@ -442,7 +469,7 @@ pub fn specs(tier: &str) -> Vec<FutSpec> {
                         continue;
                     }
                     if s1.len() + s2.len() <= if tier == "quick" { 2 } else { 4 } {
-                        out.push(FutSpec { poll: p.clone(), atomic_waker: aw, wakers: vec![s1.clone(), s2.clone()] });
+                        out.push(FutSpec { poll: p.clone(), atomic_waker: aw, wakers: vec![s1.clone(), s2.clone()], prior: false });
                     }
                 }
             }
